@@ -47,6 +47,35 @@ func P(id int) {
 	}
 }
 
+// LockHook, when set, is called at every yield point that precedes a
+// Lock/RLock call (after the point's own yields). The meter simulation uses
+// it to park the worker goroutine at the entry of Start() and Done(), where
+// it holds no lock yet.
+var LockHook atomic.Pointer[func()]
+
+// L is the yield point before a Lock or RLock call.
+func L(id int) {
+	P(id)
+	if h := LockHook.Load(); h != nil {
+		(*h)()
+	}
+}
+
+// Goid returns the id of the calling goroutine (parsed from its stack
+// header; used only to tell the meter simulation's worker from the tickers).
+func Goid() uint64 {
+	var b [64]byte
+	n := runtime.Stack(b[:], false)
+	var id uint64
+	for _, c := range b[len("goroutine "):n] {
+		if c < '0' || c > '9' {
+			break
+		}
+		id = id*10 + uint64(c-'0')
+	}
+	return id
+}
+
 // A yield must move the caller behind the goroutines that are runnable now
 // and nothing else. runtime.Gosched does not: it parks the caller on the
 // scheduler's global queue, which is polled ahead of the local queue on
